@@ -151,6 +151,7 @@ class Writer(object):
         self.per_unit = per_unit
         self.cur = []
         self.cur_n = 0
+        self.cur_bytes = 0
         self.units = 0
         self.groups = []
         self.nfunc = 0
@@ -161,8 +162,11 @@ class Writer(object):
 
     def add(self, g):
         g.gid = len(self.groups)
-        if self.cur_n + len(g.members) > self.per_unit and self.cur:
+        size = sum(len(m[1]) for m in g.members)
+        # a program is limited to 64 KiB of bytecode: keep the source of a unit well below that
+        if (self.cur_n + len(g.members) > self.per_unit or self.cur_bytes + size > 40000) and self.cur:
             self.flush()
+        self.cur_bytes += size
         g.unit = self.units
         g.names = []
         for k, (rel, src, args) in enumerate(g.members):
@@ -184,6 +188,7 @@ class Writer(object):
         self.units += 1
         self.cur = []
         self.cur_n = 0
+        self.cur_bytes = 0
 
 
 def read_unit_blocks(path):
@@ -210,7 +215,9 @@ def family(name):
 
 
 def generate(outdir, tier, only=None, per_unit=160):
-    import lpcfam_expr, lpcfam_stmt, lpcfam_misc      # noqa: F401  (register families)
+    import lpcfam_expr, lpcfam_stmt, lpcfam_misc, lpcfam_more      # noqa: F401  (register families)
+    # corpus sizes: small (self-test), full (quick tier), deep (thorough tier)
+    tier = {'quick': 'full', 'thorough': 'deep'}.get(tier, tier)
     w = Writer(outdir, per_unit)
     per_family = {}
     for name, fn in FAMILIES:
